@@ -9,6 +9,7 @@ import (
 	"go/parser"
 	"go/token"
 	"go/types"
+	"runtime/debug"
 	"sort"
 	"strings"
 
@@ -23,13 +24,13 @@ type loopAct struct {
 }
 
 type verifyCtx struct {
-	fn      *ssa.Function
-	c       *FnContract
-	pre     *State
-	args    []Value
-	headers []*ssa.BasicBlock
-	bodies  map[*ssa.BasicBlock]map[*ssa.BasicBlock]bool
-	active  map[*State][]*loopAct
+	fn        *ssa.Function
+	c         *FnContract
+	pre       *State
+	args      []Value
+	headers   []*ssa.BasicBlock
+	bodies    map[*ssa.BasicBlock]map[*ssa.BasicBlock]bool
+	active    map[*State][]*loopAct
 	sitesSeen map[string]bool
 }
 
@@ -476,7 +477,15 @@ func (x *Exec) VerifyJob(fn *ssa.Function, c *FnContract, op int) (res VerifyRes
 				res.Undecided = "values of different shapes meet at a symbolic selection: " + mf.msg
 				return
 			}
-			panic(r)
+			// a construct the engine does not model: undecided (exit 2), never a crash and never a pass
+			st := string(debug.Stack())
+			if i := strings.Index(st, "panic("); i >= 0 {
+				st = st[i:]
+			}
+			if len(st) > 900 {
+				st = st[:900]
+			}
+			res.Undecided = fmt.Sprintf("engine panic (unmodelled construct): %v | %s", r, strings.ReplaceAll(st, "\n", " "))
 		}
 	}()
 	if len(c.Cases) == 0 {
